@@ -234,7 +234,7 @@ func cmdCheck(args []string) int {
 				p, _ := writeReplay(spec, u, tc, v, v.Kind+":"+v.Msg, replays, filepath.Join("last", spec.ID))
 				attempts := 1
 				if u.Sched != "" && u.Sched != "runtoblock" {
-					attempts = 5
+					attempts = 30
 				}
 				for a := 0; a < attempts && confirmed == ""; a++ {
 					last = nb.run(p)
